@@ -52,6 +52,8 @@ pub struct SaveState {
     pub sp: u16,
     /// a further paging write issued after `latch` (ignored by the machine when `latch` locked paging)
     pub later_write: Option<u8>,
+    /// the machine is halted (a HALT at the observer's entry, interrupts kept away) when it is saved
+    pub halted: bool,
 }
 
 #[derive(Clone, Copy, Debug, PartialEq, Eq)]
@@ -144,6 +146,13 @@ fn build_saver(s: &SaveState) -> Emu {
     // keep interrupts out of the lock-step continuation: place the frame clock after the INT pulse
     e.verif_set_frame_clocks(1000);
     rig::set_regs(e.verif_cpu(), &regs_for(s));
+    if s.halted {
+        // HALT in front of the observer; executing it leaves the CPU halted (no interrupt arrives:
+        // the clock sits behind the INT pulse and the continuation is shorter than a frame)
+        rig::poke(&mut e, PROG, &[0x76]);
+        rig::step(&mut e);
+        e.verif_set_frame_clocks(1000);
+    }
     e
 }
 
@@ -250,7 +259,7 @@ fn fill_ram_partial(e: &mut Emu, _m128: bool) {
 }
 
 fn state_json(s: &SaveState, rx: Receiver) -> serde_json::Value {
-    json!({"kind":"saveload","m128":s.m128,"pattern":s.pattern,"im":s.im,"iff2":s.iff2,"border":s.border,"r":s.r,"i":s.i,"latch":s.latch,"sp":s.sp,"later_write":s.later_write,"receiver":format!("{:?}", rx)})
+    json!({"kind":"saveload","m128":s.m128,"pattern":s.pattern,"im":s.im,"iff2":s.iff2,"border":s.border,"r":s.r,"i":s.i,"latch":s.latch,"sp":s.sp,"later_write":s.later_write,"halted":s.halted,"receiver":format!("{:?}", rx)})
 }
 
 pub fn run_case(ctx: &Ctx, s: &SaveState, rx: Receiver, verbose: bool) -> u64 {
@@ -486,10 +495,13 @@ pub fn states(quick: bool) -> Vec<SaveState> {
                     c
                 };
                 for (pattern, im, iff2, border, r, i) in combos {
-                    v.push(SaveState { m128, pattern, im, iff2, border, r, i, latch: *latch, sp: *sp, later_write: None });
+                    v.push(SaveState { m128, pattern, im, iff2, border, r, i, latch: *latch, sp: *sp, later_write: None, halted: false });
+                    if j == 0 && k % 4 == 0 {
+                        v.push(SaveState { m128, pattern, im, iff2, border, r, i, latch: *latch, sp: *sp, later_write: None, halted: true });
+                    }
                     if m128 && j == 0 {
                         // a later paging write: ignored if the latch is locked, effective otherwise
-                        v.push(SaveState { m128, pattern, im, iff2, border, r, i, latch: *latch, sp: *sp, later_write: Some(latch ^ 0x17) });
+                        v.push(SaveState { m128, pattern, im, iff2, border, r, i, latch: *latch, sp: *sp, later_write: Some(latch ^ 0x17), halted: false });
                     }
                 }
             }
@@ -526,6 +538,7 @@ pub fn run(tier: Tier, seed: u64, replay: Option<String>) -> i32 {
             latch: c["latch"].as_u64().unwrap() as u8,
             sp: c["sp"].as_u64().unwrap() as u16,
             later_write: c["later_write"].as_u64().map(|x| x as u8),
+            halted: c["halted"].as_bool().unwrap_or(false),
         };
         let rx = RECEIVERS.iter().find(|r| format!("{:?}", r) == c["receiver"].as_str().unwrap_or("")).copied().unwrap_or(Receiver::Fresh);
         println!("replay: {:?} into {:?}", s, rx);
@@ -548,7 +561,7 @@ pub fn run(tier: Tier, seed: u64, replay: Option<String>) -> i32 {
     ctx.note("receivers", json!(RECEIVERS.iter().map(|r| format!("{:?}", r)).collect::<Vec<_>>()));
     ctx.note("not_judged", json!("IFF1 (not carried by SNA), MEMPTR/Q, 48K PC when the two bytes below SP are ROM, the two stack bytes holding PC in a 48K file"));
     ctx.finish(
-        "save states: two register patterns with all 26 register bytes pairwise distinct x IM x IFF2 x border x R,I in {00,7F,80,FF} x (128K) all 256 paging values reached by CPU-executed OUTs (16 in quick) x SP in {8000,4002,4001,4000,0001,0000,FFFF} (48K), RAM position-coded per bank; receivers: same machine now / 1 / 1000 instructions later, fresh, halted, between a DD prefix and its opcode, right after EI, paging locked on another bank, everything different. save_snapshot through a recording DataRecorder, load_snapshot, then: registers, border, paging latch+lock+map, every RAM bank, and 24 lock-step instructions of an observer program against a pristine twin of the saved machine; registers and all RAM of the saving machine before/after the save. distinct_nontrivial = (state, receiver) pairs",
+        "save states (running, and halted on a HALT in front of the observer): two register patterns with all 26 register bytes pairwise distinct x IM x IFF2 x border x R,I in {00,7F,80,FF} x (128K) all 256 paging values reached by CPU-executed OUTs (16 in quick) x SP in {8000,4002,4001,4000,0001,0000,FFFF} (48K), RAM position-coded per bank; receivers: same machine now / 1 / 1000 instructions later, fresh, halted, between a DD prefix and its opcode, right after EI, paging locked on another bank, everything different. save_snapshot through a recording DataRecorder, load_snapshot, then: registers, border, paging latch+lock+map, every RAM bank, and 24 lock-step instructions of an observer program against a pristine twin of the saved machine; registers and all RAM of the saving machine before/after the save. distinct_nontrivial = (state, receiver) pairs",
         false,
         &["hooks: verif_cpu, verif_ram_bank, verif_paging, verif_set_frame_clocks (to keep the INT pulse out of the continuation)"],
     )
